@@ -21,6 +21,7 @@ type Env struct {
 	pkg    *types.Package
 	useSrc bool
 	pos    token.Pos
+	loopIdx *Val // value of the hidden index of the range loop whose invariant is being evaluated
 	noHeap bool // pure-function bodies and lemmas: no memory access
 }
 
@@ -78,6 +79,20 @@ func (g *Gen) sortOfTypeName(name string, pkg *types.Package) (string, types.Typ
 		return "Int", nil, nil
 	case "Slice":
 		return "Slice", nil, nil
+	case "set[string]", "set[bytes]":
+		return "(Array Str Bool)", nil, nil
+	case "map[string]bytes", "map[string]string":
+		return "(Array Str Str)", nil, nil
+	case "map[string]int":
+		return "(Array Str Int)", nil, nil
+	case "map[string]Ref":
+		return "(Array Str Int)", nil, nil
+	case "set[int]", "set[Ref]":
+		return "(Array Int Bool)", nil, nil
+	case "map[int]int", "map[Ref]int", "map[Ref]Ref":
+		return "(Array Int Int)", nil, nil
+	case "map[int]bytes", "map[Ref]bytes":
+		return "(Array Int Str)", nil, nil
 	}
 	for _, s := range g.cs.Sorts {
 		if s == name {
@@ -390,6 +405,13 @@ func (g *Gen) eval(x *CExpr, env *Env) (Val, error) {
 				}
 			}
 		}
+		if strings.HasPrefix(bv.S, "(Array ") {
+			parts := splitArraySort(bv.S)
+			if parts != nil && parts[0] == iv.S {
+				return Val{T: fmt.Sprintf("(select %s %s)", bv.T, iv.T), S: parts[1]}, nil
+			}
+			return Val{}, fmt.Errorf("index sort mismatch on %s", x.Args[0])
+		}
 		return Val{}, fmt.Errorf("cannot index %s (sort %s)", x.Args[0], bv.S)
 	case "slice":
 		bv, err := g.eval(x.Args[0], env)
@@ -425,6 +447,13 @@ func (g *Gen) eval(x *CExpr, env *Env) (Val, error) {
 				return Val{}, fmt.Errorf("dereference in a pure context")
 			}
 			return g.loadPtr(env.st, p), nil
+		}
+		if x.Name == "&" {
+			p, err := g.place(x.Args[0], env)
+			if err != nil {
+				return Val{}, err
+			}
+			return Val{T: g.ptrTerm(p), S: "Int", Ty: types.NewPointer(p.Ty), Ptr: p}, nil
 		}
 		v, err := g.eval(x.Args[0], env)
 		if err != nil {
@@ -473,6 +502,9 @@ func (g *Gen) evalIdent(x *CExpr, env *Env) (Val, error) {
 	name := x.Name
 	if v, ok := env.vars[name]; ok {
 		return v, nil
+	}
+	if name == "rangeindex" && env.loopIdx != nil {
+		return *env.loopIdx, nil
 	}
 	if name == "nil" {
 		return Val{T: "0", S: "Int", Ty: types.Typ[types.UntypedNil]}, nil
@@ -805,6 +837,25 @@ func (g *Gen) evalCall(x *CExpr, env *Env) (Val, error) {
 			}
 		}
 		return Val{}, fmt.Errorf("has(m,k) needs a map")
+	case "upd": // upd(m, k, v): functional update of a ghost map/set
+		if err := evalArgs(); err != nil {
+			return Val{}, err
+		}
+		if len(args) == 3 && strings.HasPrefix(args[0].S, "(Array ") {
+			parts := splitArraySort(args[0].S)
+			if parts != nil && parts[0] == args[1].S && parts[1] == args[2].S {
+				return Val{T: fmt.Sprintf("(store %s %s %s)", args[0].T, args[1].T, args[2].T), S: args[0].S}, nil
+			}
+		}
+		return Val{}, fmt.Errorf("upd(m, k, v) sort error")
+	case "emptyset":
+		if len(x.Args) == 1 && x.Args[0].Op == "str" {
+			srt, _, err := g.sortOfTypeName(x.Args[0].Name, env.pkg)
+			if err == nil && strings.HasPrefix(srt, "(Array ") {
+				return Val{T: fmt.Sprintf("((as const %s) false)", srt), S: srt}, nil
+			}
+		}
+		return Val{}, fmt.Errorf("emptyset(\"set[string]\")")
 	case "isnilb":
 		if err := evalArgs(); err != nil {
 			return Val{}, err
@@ -839,6 +890,42 @@ func (g *Gen) evalCall(x *CExpr, env *Env) (Val, error) {
 			return Val{T: fmt.Sprint(tag), S: "Int"}, nil
 		}
 		return Val{}, fmt.Errorf("typeid needs a string literal")
+	case "cast": // cast(x, "*pkg.Type"): the dynamic value of interface x viewed as that type
+		if len(x.Args) == 2 && x.Args[1].Op == "str" {
+			v, err := g.eval(x.Args[0], env)
+			if err != nil {
+				return Val{}, err
+			}
+			tn := x.Args[1].Name
+			ptr := strings.HasPrefix(tn, "*")
+			t := g.lookupType(strings.TrimPrefix(tn, "*"), env.pkg)
+			if t == nil {
+				return Val{}, fmt.Errorf("unknown type %s", tn)
+			}
+			if ptr {
+				t = types.NewPointer(t)
+			}
+			_, un, _ := g.boxFn(t)
+			return Val{T: fmt.Sprintf("(%s %s)", un, v.T), S: g.sortOf(t), Ty: t}, nil
+		}
+		return Val{}, fmt.Errorf("cast(x, \"type\")")
+	case "Is":
+		if err := evalArgs(); err != nil {
+			return Val{}, err
+		}
+		g.declIs()
+		if len(args) == 2 {
+			return Val{T: fmt.Sprintf("(p$Is %s %s)", args[0].T, args[1].T), S: "Bool", Ty: types.Typ[types.Bool]}, nil
+		}
+		return Val{}, fmt.Errorf("Is(err, target)")
+	case "held":
+		if err := evalArgs(); err != nil {
+			return Val{}, err
+		}
+		if len(args) == 1 {
+			return Val{T: sNot(sEq(g.heldTerm(env.st, args[0].T), "0")), S: "Bool", Ty: types.Typ[types.Bool]}, nil
+		}
+		return Val{}, fmt.Errorf("held(&mu)")
 	case "fresh":
 		if err := evalArgs(); err != nil {
 			return Val{}, err
@@ -1051,4 +1138,26 @@ func (g *Gen) ghostField(t types.Type, name string) ([]string, types.Type, bool)
 		}
 	}
 	return nil, nil, false
+}
+
+// splitArraySort parses "(Array K V)" into K and V.
+func splitArraySort(s string) []string {
+	if !strings.HasPrefix(s, "(Array ") || !strings.HasSuffix(s, ")") {
+		return nil
+	}
+	body := s[len("(Array ") : len(s)-1]
+	d := 0
+	for i := 0; i < len(body); i++ {
+		switch body[i] {
+		case '(':
+			d++
+		case ')':
+			d--
+		case ' ':
+			if d == 0 {
+				return []string{body[:i], body[i+1:]}
+			}
+		}
+	}
+	return nil
 }
